@@ -21,12 +21,20 @@
 //	D6  a window inside the step: UpdateForwardingPolicy lands while the check
 //	    runs (driven deterministically from the shaper's callbacks, which the
 //	    check invokes between its comparisons)
+//	D7  (axis audit) an aux traffic shaper that FAILS (ShouldHandleTraffic or
+//	    PaymentBandwidth return an error: the spendable bandwidth cannot be
+//	    established, so nothing may be offered) and a shaper whose answer is a
+//	    FUNCTION OF THE ARGUMENTS the link hands it (the channel's own
+//	    bandwidth minus a constant; the HTLC amount it is asked about minus
+//	    one / exactly): the verdict then depends on the link passing the true
+//	    channel bandwidth and the true HTLC amount
 //
 // All oracles are the ones of oracle_test.go; D6 additionally uses "the verdict
 // is the verdict under the old or under the new policy as a whole".
 package c09
 
 import (
+	"errors"
 	"fmt"
 	"math/big"
 	"sort"
@@ -55,9 +63,12 @@ type WinSpec struct {
 // of ShouldHandleTraffic ("handle").
 type shaper struct {
 	handle, custom bool
+	mode           string // the case's aux_shaper value
 	bw             lnwire.MilliSatoshi
 	hook           func(where string)
 }
+
+var errShaper = errors.New("aux traffic shaper unavailable")
 
 func (s *shaper) ProduceHtlcExtraData(total lnwire.MilliSatoshi, r lnwire.CustomRecords,
 	_ route.Vertex) (lnwire.MilliSatoshi, lnwire.CustomRecords, error) {
@@ -69,12 +80,29 @@ func (s *shaper) ShouldHandleTraffic(lnwire.ShortChannelID, fn.Option[tlv.Blob],
 	if s.hook != nil {
 		s.hook("handle")
 	}
+	if s.mode == "err-handle" {
+		return false, errShaper
+	}
 	return s.handle, nil
 }
 
-func (s *shaper) PaymentBandwidth(_, _, _ fn.Option[tlv.Blob], _, _ lnwire.MilliSatoshi,
+func (s *shaper) PaymentBandwidth(_, _, _ fn.Option[tlv.Blob], linkBandwidth, htlcAmt lnwire.MilliSatoshi,
 	_ lnwallet.AuxHtlcView, _ route.Vertex) (lnwire.MilliSatoshi, error) {
 
+	switch s.mode {
+	case "err-bw":
+		return 0, errShaper
+	case "bw-link": // the channel's own figure minus a constant
+		if linkBandwidth < s.bw {
+			return 0, nil
+		}
+		return linkBandwidth - s.bw, nil
+	case "bw-amt": // one msat less than (s.bw = 0) / exactly (s.bw = 1) what is asked for
+		if htlcAmt+s.bw < 1 {
+			return 0, nil
+		}
+		return htlcAmt + s.bw - 1, nil
+	}
 	return s.bw, nil
 }
 
@@ -247,6 +275,7 @@ type dimTier struct {
 	pols       []polPoint
 	args, owns []inb
 	auxBW      func(bw uint64) []uint64
+	auxK       func(bw uint64) []uint64 // D7: constants a "bw-link" shaper subtracts from the channel's figure
 	winPols    []polPoint
 	winWorlds  []string
 }
@@ -261,6 +290,10 @@ func dimTierOf(thorough bool) dimTier {
 			// nothing, below / exactly / above the channel's own figure, the largest channel
 			return []uint64{0, 20, bw, bw + 50_000, maxChanMsat}
 		},
+		auxK: func(bw uint64) []uint64 {
+			// the channel's figure itself, one less, much less, nothing left, saturating
+			return []uint64{0, 1, 50_000, bw, bw + 1}
+		},
 		winPols:   []polPoint{polNZ, polB, polZero, polC},
 		winWorlds: []string{"fresh"},
 	}
@@ -271,6 +304,13 @@ func dimTierOf(thorough bool) dimTier {
 		d.owns = []inb{{7777, -12345}, {-3, 999_999}, {minI32, minI32}, {maxI32, maxI32}, {0, 1}, {1, 0}}
 		d.auxBW = func(bw uint64) []uint64 {
 			l := []uint64{0, 1, 20, 50_000, bw, bw + 1, bw + 50_000, maxChanMsat - 1, maxChanMsat}
+			if bw > 0 {
+				l = append(l, bw-1)
+			}
+			return l
+		}
+		d.auxK = func(bw uint64) []uint64 {
+			l := []uint64{0, 1, 2, 999, 1000, 50_000, bw, bw + 1, maxChanMsat}
 			if bw > 0 {
 				l = append(l, bw-1)
 			}
@@ -322,6 +362,26 @@ func buildDimJobs(thorough bool, worlds []*world, liveBW [2]uint64) []job {
 					c := base(wn, p, d.args[1])
 					c.Shaper, c.Records, c.AuxBW = "bw", rec, ab
 					add("D2-aux-shaper", c, []uint64{ab, bw}, nil)
+				}
+				// D7: failing shaper / shaper answering as a function of its arguments
+				for _, mode := range []string{"err-handle", "err-bw"} {
+					c := base(wn, p, d.args[1])
+					c.Shaper, c.Records = mode, rec
+					add("D7-aux-shaper-fails", c, []uint64{bw}, nil)
+				}
+				for _, k := range setU64(bigs(d.auxK(bw)...)) {
+					c := base(wn, p, d.args[1])
+					c.Shaper, c.Records, c.AuxBW = "bw-link", rec, k
+					eff := uint64(0)
+					if bw > k {
+						eff = bw - k
+					}
+					add("D7-aux-shaper-function-of-arguments", c, []uint64{eff, bw}, nil)
+				}
+				for _, s := range []uint64{0, 1} {
+					c := base(wn, p, d.args[1])
+					c.Shaper, c.Records, c.AuxBW = "bw-amt", rec, s
+					add("D7-aux-shaper-function-of-arguments", c, []uint64{bw}, nil)
 				}
 			}
 			// D3: source of the failure's channel_update
